@@ -116,6 +116,8 @@ def _deep_docs(bs4, N):
     out.append(('controls', 'html.parser', '<form><fieldset disabled>' + '<div>' * N + '<input id="leaf" type="text" dir="auto" value=""><input type="radio" name="g">'
                 '<button>b</button>' + '</div>' * N + '</fieldset><input type="submit"></form>'))
     out.append(('xml', 'xml', '<r xml:lang="en">' + '<a>' * N + '<b id="leaf">x</b>' + '</a>' * N + '</r>'))
+    out.append(('auto-chain', 'html.parser', '<html><body>' + '<div dir="auto">' * N + '<bdi id="leaf">123</bdi> 456 ' + '</div>' * N + '</body></html>'))
+    out.append(('bdi-chain', 'html.parser', '<html><body>' + '<bdi>' * N + '<input id="leaf" type="text" dir="auto" value="">' + '</bdi>' * N + '</body></html>'))
     out.append(('iframe', 'html.parser', '<html><body><iframe>' + '<div>' * N + '<p id="leaf" dir="auto"></p>' + '</div>' * N + '</iframe><p>z</p></body></html>'))
     res = []
     for name, parser, markup in out:
@@ -179,7 +181,7 @@ def _deep_part(chk, tier):
                 chk.violation('deep|%s|%s|%s' % (css, name, err), '%s of %r on the %d-level document "%s": %s' % (cname, css, DEEP[tier], name, err),
                               {'cfg': 'deep', 'selector': css, 'doc': name, 'call': cname, 'group': 'deep %s %s' % (err, css)})
     chk.count(n, traces=n)
-    chk.notes['deep'] = {'levels': DEEP[tier], 'documents': 5, 'selectors': len(sels), 'calls': n}
+    chk.notes['deep'] = {'levels': DEEP[tier], 'documents': 7, 'selectors': len(sels), 'calls': n}
 
 
 def _degenerate_part(chk):
